@@ -7,6 +7,8 @@ sort, clause 3 ("mismatch"): complete off-by-one lattice over the five sizes; or
 disp2eig:                    u = s * e / sqrt(m); oracle: rows come back as (s/|s|) * e, unit norm, orthonormal
 load:                        files written by evec_ref.format_file; oracle: every printed number comes back
 """
+import copy
+import functools
 import itertools
 import os
 import shutil
@@ -284,6 +286,80 @@ def _mass_container(mass, mcont):
     raise HarnessError(mcont)
 
 
+PRESENTATIONS = ("c128", "f64", "list", "view", "tview", "c64")
+EPS32 = float(np.finfo(np.float32).eps)
+
+
+def _present(block, pres, holder_rows=None, sqm=None):
+    """One way a caller can hand the M x 3N block `block` (complex128 values) to evec_disp2eig.
+    Returns (argument, holder, snapshot) or None when this presentation does not apply.  `holder` is the
+    object that owns the caller's data (the array a view looks into, or the nested list), `snapshot` an
+    independent copy of it taken before the call."""
+    block = np.asarray(block)
+    real = not np.any(block.imag)
+    if pres == "c128":
+        a = np.array(block, dtype=np.complex128)
+        return a, a, a.copy()
+    if pres == "f64":
+        if not real:
+            return None
+        a = np.array(block.real, dtype=np.float64)
+        return a, a, a.copy()
+    if pres == "list":
+        a = (block.real if real else block).tolist()
+        return a, a, copy.deepcopy(a)
+    if pres == "view":              # rows lo:hi of a LARGER array the caller keeps using
+        if holder_rows is None:
+            return None
+        full, lo, hi = holder_rows
+        holder = np.array(full, dtype=np.complex128)
+        a = holder[lo:hi]
+        if a.base is not holder:
+            raise HarnessError("row view is not a view")
+        return a, holder, holder.copy()
+    if pres == "tview":             # transposed view of a 3N x M array: same numbers, non-contiguous
+        holder = np.ascontiguousarray(np.array(block, dtype=np.complex128).T)
+        a = holder.T
+        if a.flags["C_CONTIGUOUS"] and min(a.shape) > 1:
+            raise HarnessError("transposed view is contiguous")
+        return a, holder, holder.copy()
+    if pres == "c64":               # single precision, only where the squares of the displacements AND of the
+        if sqm is None:             # mass-weighted displacements stay inside the float32 range (1e-38..3e38)
+            raise HarnessError("c64 presentation needs the masses")
+        mags = np.abs(np.concatenate([block[block != 0], (block * sqm)[block != 0]]))
+        if mags.size == 0 or mags.min() < 1e-15 or mags.max() > 1e15:
+            return None
+        a = np.array(block, dtype=np.complex64)
+        return a, a, a.copy()
+    raise HarnessError(pres)
+
+
+def _unchanged(holder, snapshot):
+    if isinstance(holder, np.ndarray):
+        return holder.dtype == snapshot.dtype and holder.shape == snapshot.shape and np.array_equal(holder, snapshot)
+    return holder == snapshot
+
+
+def _check_disp(tally, what, out, a_shape, want, tol, sig="c20:disp", extra=None, basis=True):
+    """Oracle on the RETURN VALUE of one conversion: want = (s/|s|) e rows (basis=True: rows of a unitary)."""
+    out = np.asarray(out)
+    if out.shape != tuple(a_shape) or not np.all(np.isfinite(out)):
+        tally.add(f"{sig}:shape-or-nonfinite", f"{what}: shape {out.shape} for input {tuple(a_shape)}")
+        return
+    norms = np.sqrt(np.sum(np.abs(out.astype(complex)) ** 2, axis=1))
+    if np.max(np.abs(norms - 1)) > tol:
+        kbad = int(np.argmax(np.abs(norms - 1)))
+        tally.add(f"{sig}:norm", f"{what}: row norms deviate from 1 by {np.max(np.abs(norms - 1)):.3g} "
+                  f"(row {kbad}: returned norm {norms[kbad]:.3g}{extra(kbad) if extra else ''})")
+    o = out.astype(complex)
+    g = o @ np.conj(o).T
+    if basis and np.max(np.abs(g - np.eye(len(o)))) > tol:
+        tally.add(f"{sig}:orthonormal", f"{what}: |G - I| max {np.max(np.abs(g - np.eye(len(o)))):.3g}")
+    dv = np.max(np.abs(o - want))
+    if dv > tol:
+        tally.add(f"{sig}:vector", f"{what}: differs from (s/|s|) e by {dv:.3g}")
+
+
 def _case_disp(case):
     natoms, base, mkind, skind, shape, mcont = (case[k] for k in ("N", "base", "mass", "scal", "shape", "mcont"))
     mode = case.get("mode", "mw")
@@ -291,8 +367,9 @@ def _case_disp(case):
     e = R.basis(n, base)
     mass = R.masses(natoms, mkind)
     s = R.row_scaling(n, skind)
-    u = R.displacements(e, mass, s, mode)
+    u = R.displacements(e, mass, s, mode).astype(complex)
     want = (s / np.abs(s))[:, None] * e
+    sqm = np.sqrt(np.repeat(np.asarray(mass, dtype=float), 3))
     if shape == "full":
         subsets = [list(range(n))]
     elif shape == "rows1":
@@ -304,34 +381,145 @@ def _case_disp(case):
         raise HarnessError(shape)
     tally = _Tally()
     for rows in subsets:
-        a_c = u[rows].astype(complex)
-        variants = [("complex", a_c)]
-        if not np.any(a_c.imag):
-            variants.append(("float", a_c.real.copy()))
-        for dt, a in variants:
+        block = u[rows]
+        contiguous = rows == list(range(rows[0], rows[-1] + 1))
+        for pres in case.get("pres", ["c128", "f64"]):
+            p = _present(block, pres, (u, rows[0], rows[-1] + 1) if contiguous else None, sqm)
+            if p is None:
+                continue
+            a, holder, snap = p
             tally.calls += 1
-            what = f"N={natoms} base={base} mass={mkind} scal={skind} norm={mode} rows={rows if len(rows) < 7 else len(rows)} dtype={dt} mcont={mcont}"
+            what = (f"N={natoms} base={base} mass={mkind} scal={skind} norm={mode} rows={rows if len(rows) < 7 else len(rows)} "
+                    f"input={pres} mcont={mcont}")
             try:
-                out = np.asarray(_d2e(a.copy(), _mass_container(mass, mcont)))
+                out = _d2e(a, _mass_container(mass, mcont))
+                raised = None
             except Exception as ex:
-                tally.add(f"c20:disp:raised:{type(ex).__name__}", f"{what}: {ex!r}")
+                out, raised = None, ex
+            if not _unchanged(holder, snap):
+                tally.add("c20:disp:input-mutated",
+                          f"{what}: the call overwrote the caller's displacement data (the statement says the conversion MAPS "
+                          f"displacements to eigenvectors: the result is the return value, the argument must stay what the caller "
+                          f"put there); max change {_maxdiff(holder, snap):.3g}")
+            if raised is not None:
+                tally.add(f"c20:disp:raised:{type(raised).__name__}", f"{what}: {raised!r}")
                 continue
-            if out.shape != a.shape or not np.all(np.isfinite(out)):
-                tally.add("c20:disp:shape-or-nonfinite", f"{what}: shape {out.shape} for input {a.shape}")
-                continue
-            norms = np.sqrt(np.sum(np.abs(out) ** 2, axis=1))
-            if np.max(np.abs(norms - 1)) > TOL:
-                kbad = int(np.argmax(np.abs(norms - 1)))
-                mw = np.linalg.norm(a[kbad] * np.sqrt(np.repeat(np.asarray(mass, dtype=float), 3)))
-                tally.add("c20:disp:norm", f"{what}: row norms deviate from 1 by {np.max(np.abs(norms - 1)):.3g} "
-                          f"(row {rows[kbad]}: displacement norm {np.linalg.norm(a[kbad]):.3g}, mass-weighted norm {mw:.3g}, returned norm {norms[kbad]:.3g})")
-            g = out @ np.conj(out).T
-            if np.max(np.abs(g - np.eye(len(rows)))) > TOL:
-                tally.add("c20:disp:orthonormal", f"{what}: |G - I| max {np.max(np.abs(g - np.eye(len(rows)))):.3g}")
-            dv = np.max(np.abs(out - want[rows]))
-            if dv > TOL:
-                tally.add("c20:disp:vector", f"{what}: differs from (s/|s|) e by {dv:.3g}")
+            tol = TOL if pres != "c64" else (n + 8) * EPS32      # single precision input: n+8 roundings of 1.2e-7
+            _check_disp(tally, what, out, block.shape, want[rows], tol,
+                        extra=lambda k: f", displacement norm {np.linalg.norm(block[k]):.3g}, mass-weighted norm {np.linalg.norm(block[k] * sqm):.3g}")
     return {"viol": tally.viol(), "calls": tally.calls, "outcome": "converted" if not tally.by_sig else "violation"}
+
+
+def _maxdiff(holder, snap):
+    try:
+        return float(np.max(np.abs(np.asarray(holder, dtype=complex) - np.asarray(snap, dtype=complex))))
+    except Exception:
+        return float("nan")
+
+
+INT_PRESENTATIONS = ("int64", "int32", "intlist", "f64", "c128")
+
+
+def _case_disp_int(case):
+    """Integer-VALUED displacements (e.g. a unit displacement pattern typed in by hand)."""
+    natoms, mkind, pres = case["N"], case["mass"], case["pres"]
+    n = 3 * natoms
+    i, j = np.arange(n)[:, None], np.arange(n)[None, :]
+    vals = ((3 * i + 5 * j + i * j) % 7) - 3
+    if np.any(np.all(vals == 0, axis=1)):
+        raise HarnessError("integer displacement pattern has a null row")
+    mass = R.masses(natoms, mkind)
+    w = vals * np.sqrt(np.repeat(np.asarray(mass, dtype=float), 3))[None, :]
+    want = w / np.linalg.norm(w, axis=1)[:, None]
+    tally = _Tally()
+    for rows in [list(range(n)), [0], [n - 1], list(range(0, n, 2))]:
+        block = vals[rows]
+        if pres == "int64":
+            a = np.array(block, dtype=np.int64)
+        elif pres == "int32":
+            a = np.array(block, dtype=np.int32)
+        elif pres == "intlist":
+            a = [[int(x) for x in r] for r in block]
+        elif pres == "f64":
+            a = np.array(block, dtype=np.float64)
+        elif pres == "c128":
+            a = np.array(block, dtype=np.complex128)
+        else:
+            raise HarnessError(pres)
+        snap = copy.deepcopy(a)
+        tally.calls += 1
+        what = f"integer-valued displacements N={natoms} mass={mkind} rows={rows if len(rows) < 7 else len(rows)} input={pres}"
+        try:
+            out = _d2e(a, list(mass))
+            raised = None
+        except Exception as ex:
+            out, raised = None, ex
+        if not _unchanged(a, snap):
+            tally.add("c20:disp:input-mutated", f"{what}: the call overwrote the caller's displacement data (MAPS: the result "
+                      f"is the return value); max change {_maxdiff(a, snap):.3g}")
+        if raised is not None:
+            if pres in ("int64", "int32", "intlist"):
+                # an integer dtype is refused by numpy's in-place casting rule; whether integer TYPED input must be
+                # accepted is not part of the statement (matdyn data are floats): recorded, not asserted
+                return {"viol": tally.viol(), "calls": tally.calls, "nontrivial": True,
+                        "outcome": f"refused:integer-dtype:{type(raised).__name__}"}
+            tally.add(f"c20:disp:raised:{type(raised).__name__}", f"{what}: {raised!r}")
+            continue
+        _check_disp(tally, what, out, block.shape, want[rows], TOL, basis=False)   # rows are not eigenvectors of one matrix
+    return {"viol": tally.viol(), "calls": tally.calls, "outcome": "converted" if not tally.by_sig else "violation"}
+
+
+# mode B: histories of conversions on ONE array object
+DISP_OPS = ("F", "V0", "V1", "C")       # full matrix D | row view D[0:1] | row view D[n-1:n] | a copy of D
+DISP_HIST_PRES = ("c128", "f64", "c64", "tview", "list")
+
+
+def _case_disp_history(case):
+    natoms, base, mkind, skind, pres = (case[k] for k in ("N", "base", "mass", "scal", "pres"))
+    n = 3 * natoms
+    e = R.basis(n, base)
+    mass = R.masses(natoms, mkind)
+    if len(set(mass)) < 2:
+        raise HarnessError("history cases need at least two different masses")
+    s = R.row_scaling(n, skind)
+    u = R.displacements(e, mass, s, "mw").astype(complex)
+    want = (s / np.abs(s))[:, None] * e
+    tol = TOL if pres != "c64" else (n + 8) * EPS32
+    tally = _Tally()
+    nseq = nops = 0
+    from mc.explore import sequences
+    for seq in sequences(DISP_OPS, case["depth"], 1):
+        p = _present(u, pres, None, np.sqrt(np.repeat(np.asarray(mass, dtype=float), 3)))
+        if p is None:
+            return {"viol": [], "nontrivial": False, "outcome": "presentation-not-applicable", "calls": 0, "seqs": 0}
+        d, holder, snap = p
+        nseq += 1
+        for k, op in enumerate(seq):
+            nops += 1
+            tally.calls += 1
+            if op == "F":
+                arg, rows = d, slice(0, n)
+            elif op in ("V0", "V1"):
+                r = 0 if op == "V0" else n - 1
+                rows = slice(r, r + 1)
+                arg = d[rows]                     # ndarray: a view into D; nested list: a one-row list holding D's row object
+            else:
+                arg, rows = copy.deepcopy(d), slice(0, n)
+            what = f"history {'.'.join(seq)} step {k + 1} ({op}) on one {pres} array, N={natoms} base={base} mass={mkind} scal={skind}"
+            try:
+                out = _d2e(arg, list(mass))
+            except Exception as ex:
+                tally.add(f"c20:disp:history:raised:{type(ex).__name__}", f"{what}: {ex!r}")
+                break
+            _check_disp(tally, what + " [result must be the conversion of the ORIGINAL data]", out,
+                        (rows.stop - rows.start, n), want[rows], tol, sig="c20:disp:history")
+            if not _unchanged(holder, snap):
+                tally.add("c20:disp:history:input-mutated",
+                          f"{what}: after this step the caller's array D no longer holds the original displacements "
+                          f"(max change {_maxdiff(holder, snap):.3g}); a conversion MAPS its argument, it must not overwrite it")
+                # no break: the history goes on, the following results are still held to the ORIGINAL data
+    return {"viol": tally.viol(), "calls": tally.calls, "seqs": nseq, "ops": nops,
+            "outcome": "histories-consistent" if not tally.by_sig else "violation"}
 
 
 def _case_disp_mismatch(case):
@@ -418,10 +606,134 @@ def _case_load(case):
             "outcome": "loaded" if not tally.by_sig else "violation"}
 
 
+# mode B: process histories of the loader.  A loader is a function of the bytes at the path at the time of
+# the call; the history (earlier loads of the same path string, rewrites, chdir) must not matter.
+LOAD_CONTENTS = {"X": (2, 3, "matdyn"), "Y": (2, 3, "shifted"), "Z": (1, 6, "large")}   # Y: same nq/np as X, other numbers
+LOAD_OPS = ("wXp", "wYp", "wZp", "wYq", "Lp", "Lq", "cd1", "cd2", "Lr", "M")
+# initial state: p absent, q holds X, dir1/<name> holds X, dir2/<name> holds Y, cwd = dir1
+#   wCp / wYq  write content C to the absolute path p / Y to q        Lp / Lq  load the absolute path
+#   cd1 / cd2  chdir                                                   Lr       load the RELATIVE name in the cwd
+#   M          mutate the structure returned by the latest load
+LOAD_HIST_DEPTH = {"quick": 4, "thorough": 5}
+
+
+def load_histories(depth):
+    """All valid sequences of length <= depth that end in a load.  Valid: Lp after a write to p; M after a load;
+    cdK only when the cwd is the other directory."""
+    out = []
+
+    def rec(seq, has_p, loaded, cwd):
+        if seq and seq[-1] in ("Lp", "Lq", "Lr"):
+            out.append(list(seq))
+        if len(seq) >= depth:
+            return
+        for op in LOAD_OPS:
+            if op == "Lp" and not has_p:
+                continue
+            if op == "M" and not loaded:
+                continue
+            if op in ("cd1", "cd2") and cwd == op[2]:
+                continue
+            rec(seq + [op], has_p or op[0] == "w" and op[2] == "p", loaded or op[0] == "L",
+                op[2] if op in ("cd1", "cd2") else cwd)
+
+    rec([], False, False, "1")
+    return out
+
+
+@functools.lru_cache(maxsize=None)
+def _content(name):
+    nq, nmodes, variant = LOAD_CONTENTS[name]
+    text = R.format_file(R.synthetic_qpoints(nq, nmodes, variant))
+    return text, _norm_loaded(R.parse_file(text), flat=True)
+
+
+def _norm_loaded(x, flat=False):
+    """Comparable form of a loader result / of evec_ref.parse_file's result."""
+    try:
+        if flat:
+            return [(tuple(q), [(i, f, c, [complex(z) for z in v]) for i, f, c, v in ms]) for q, ms in x]
+        return [(tuple(q), [(h[0], h[1], h[2], [complex(z) for z in v]) for h, v in ms]) for q, ms in x]
+    except Exception as ex:
+        return f"<malformed: {ex!r}>"
+
+
+def _case_load_history(case):
+    from cij.misc.evec_load import evec_load
+    ops = case["ops"]
+    name = "m%s.eig" % case["id"]              # unique relative name per history: histories stay independent
+    root = tempfile.mkdtemp(prefix="c20h-", dir="/dev/shm")
+    old_cwd = os.getcwd()
+    viol = []
+    nloads = 0
+    try:
+        d1, d2 = os.path.join(root, "dir1"), os.path.join(root, "dir2")
+        os.mkdir(d1), os.mkdir(d2)
+        paths = {"p": os.path.join(root, "p.eig"), "q": os.path.join(root, "q.eig")}
+        holds = {}                                   # real path -> content name
+
+        def write(path, c):
+            with open(path, "w") as fp:
+                fp.write(_content(c)[0])
+            holds[path] = c
+
+        write(paths["q"], "X"), write(os.path.join(d1, name), "X"), write(os.path.join(d2, name), "Y")
+        os.chdir(d1)
+        last = None
+        seen = {}                                    # path string as given -> contents it was loaded with before
+        for k, op in enumerate(ops):
+            if op[0] == "w":
+                write(paths[op[2]], op[1])
+            elif op in ("cd1", "cd2"):
+                os.chdir(d1 if op == "cd1" else d2)
+            elif op == "M":
+                for mutate in (lambda r: r[0][1][0][1].__setitem__(0, 1e9),     # tuples inside: normally a TypeError
+                               lambda r: r[0][0].__setitem__(0, 1e9),
+                               lambda r: r.__setitem__(0, ("mutated",)),
+                               lambda r: r.append("mutated")):
+                    try:
+                        mutate(last)
+                    except Exception:
+                        pass
+            else:
+                given = name if op == "Lr" else paths[op[1]]
+                real = os.path.realpath(given)
+                c = holds[real]
+                nq, nmodes, _ = LOAD_CONTENTS[c]
+                with open(real) as fp:
+                    now = _norm_loaded(R.parse_file(fp.read()), flat=True)   # the bytes currently at that path
+                if now != _content(c)[1]:
+                    raise HarnessError("bookkeeping of file contents is off")
+                nloads += 1
+                try:
+                    got = evec_load(given, nq, nmodes)
+                except Exception as ex:
+                    viol.append(V(f"c20:load:history:raised:{type(ex).__name__}", f"history {ops}: step {k + 1} ({op}) raised {ex!r}"))
+                    break
+                last = got
+                g = _norm_loaded(got)
+                if g != now:
+                    stale = [o for o in seen.get(given, []) if o != c and g == _content(o)[1]]
+                    cause = "stale-earlier-content-of-same-path-string" if stale else "other"
+                    where = f"relative name in {os.path.basename(os.getcwd())}" if op == "Lr" else f"path {op[1]}"
+                    viol.append(V(f"c20:load:history:differs-from-file:{cause}",
+                                  f"history {ops}: the load at step {k + 1} ({where}, which now holds content {c} = "
+                                  f"{LOAD_CONTENTS[c]}) did not return the numbers printed in the file"
+                                  + (f" but those of content {stale[0]}, loaded earlier under the same path string" if stale else "")))
+                    break
+                seen.setdefault(given, []).append(c)
+    finally:
+        os.chdir(old_cwd)
+        shutil.rmtree(root, ignore_errors=True)
+    return {"viol": viol, "calls": nloads, "outcome": f"history/loads{nloads}" if not viol else "violation",
+            "key": "lh:" + ".".join(ops)}
+
+
 _KINDS = {
     "sm": _case_sort_match_small, "sb": _case_sort_match_big, "sa": _case_sort_any,
     "smm": _case_sort_mismatch, "smr": _case_sort_ragged,
     "d": _case_disp, "dm": _case_disp_mismatch, "l": _case_load,
+    "di": _case_disp_int, "dh": _case_disp_history, "lh": _case_load_history,
 }
 
 
@@ -462,7 +774,14 @@ def explore(ctx):
         "disp2eig: N x base x 5 mass sets (incl. 1e-10 amu-like and kg) x 14 row scalings (every decade 1e-12..1e12, per-row phases, "
         "neighbouring rows 1e-9|1e3, all decades side by side) x {scaling = mass-weighted norm, scaling = raw displacement norm} "
         "x shape x mass container (full product in thorough; in quick the container varies for two scalings only) + off-by-one lattice. "
-        "load: nq x np x 3 value patterns, every slot a distinct number. One case batches many calls; every case is "
+"disp2eig inputs are presented as complex128 / float64 / nested list / row view of a larger array / transposed "
+        "non-contiguous view / complex64 (and integer-valued data as int64, int32, nested int list); after EVERY call the caller's "
+        "data must be unchanged. mode B (disp2eig): all sequences of <= 3 operations {convert D, convert row view D[0:1], "
+        "D[n-1:n], convert a copy of D} on ONE array object, every result = conversion of the ORIGINAL data. "
+        "load: nq x np x 3 value patterns, every slot a distinct number. mode B (load): all valid operation sequences "
+        "(write X|Y|Z to p, write Y to q, load p, load q, chdir, load a relative name, mutate the returned structure) up to "
+        "depth 4 (quick) / 5 (thorough) ending in a load; every load = evec_ref's parse of the bytes then at that path. "
+        "One case batches many calls; every case is "
         "non-trivial except the size-consistent points of the mismatch lattices." % (small_n,))
     ctx.assumptions = [
         "numpy/LAPACK trusted; the reference bases are unitary to 1e-12 (selftest)",
@@ -475,6 +794,11 @@ def explore(ctx):
         "matdyn layout as in tests/data/pwscf.eig (reproduced byte for byte by the reference writer, selftest); vector "
         "components within (-10, 100) so that the f10.6 fields keep a blank separator (matdyn normalises its vectors to 1)",
         "evec_sort's optional filter/threshold arguments are left at their defaults",
+        "complex64 displacements: used only where all squares stay inside the float32 range; tolerance (3N+8)*eps32 "
+        "(the precision of the caller's own data), 1e-9 everywhere else",
+        "integer-TYPED displacement arrays (int64/int32/nested int lists) are refused by numpy's in-place casting rule "
+        "(UFuncTypeError); the statement does not say that integer dtypes must be accepted, so the refusal is recorded as an "
+        "outcome and only 'the input is left unchanged' is asserted for them; the same VALUES as float64/complex128 must convert",
     ]
     pool_conts = list(CONTAINERS)
 
@@ -541,9 +865,12 @@ def explore(ctx):
     natoms = (1, 2, 4, 20)
     # thorough: full product.  quick: the mass container (numerically irrelevant) is varied only for the
     # scalings "1" and "ladder", and for N = 20 the M x 3N subsets are M in {2, 3, 30, 59} + every other row
-    # instead of every M; everything else is the full product in both tiers.
+    # instead of every M, and the four extra input presentations (nested list, row view of a larger array,
+    # transposed non-contiguous view, complex64) are used for the scalings "1", "ladder", "alt" only;
+    # everything else is the full product in both tiers.
     cases = [{"kind": "d", "N": N, "base": base, "mass": m, "scal": s, "mode": mode, "shape": sh, "mcont": mc,
-              "msub": "few" if (q and N == 20) else "all"}
+              "msub": "few" if (q and N == 20) else "all",
+              "pres": list(PRESENTATIONS) if (not q or s in ("1", "ladder", "alt")) else ["c128", "f64"]}
              for N in reversed(natoms) for base in R.BASES for m in R.MASS_KINDS for s in R.SCALINGS
              for mode in R.NORM_MODES for sh in ("full", "rows1", "subsets")
              for mc in (("list", "ndarray", "column") if (not q or s in ("1", "ladder")) else ("list",))
@@ -559,6 +886,17 @@ def explore(ctx):
                 lo, hi = min(lo, float(w.min())), max(hi, float(w.max()))
             span[f"{m}:{mode}"] = [float("%.3g" % lo), float("%.3g" % hi)]
     ctx.notes["disp_mass_weighted_norm_span"] = span
+    _run(ctx, [{"kind": "di", "N": N, "mass": m, "pres": pr} for N in (1, 2, 4) for m in R.MASS_KINDS for pr in INT_PRESENTATIONS],
+         "disp2eig-integer-valued", parallel=False)
+    # mode B: every sequence of <= 3 conversions on ONE array object
+    hist = [{"kind": "dh", "N": N, "base": base, "mass": m, "scal": s, "pres": pr, "depth": 3}
+            for N in (4, 2) for base in ("rotation", "dft", "crot") for m in ("elements", "extreme", "light", "kg")
+            for s in ("1", "ladder", "alt") for pr in DISP_HIST_PRES if not (pr == "f64" and base != "rotation")]
+    res = ctx.run(MOD, "run_case", hist, part="disp2eig-history", chunksize=2,
+                  states=0, transitions=0)
+    ctx.states += sum(int(r.get("seqs", 0)) for r in res)
+    ctx.transitions += sum(int(r.get("ops", 0)) for r in res)
+    ctx.notes.setdefault("calls_of_real_function", OrderedDict())["disp2eig-history"] = sum(int(r.get("calls", 0)) for r in res)
     ddims = OrderedDict((("dm", [0, -1, 1]), ("dc", [0, -1, 1])))
     for N in natoms:
         for rows in ("one", "full"):
@@ -574,6 +912,14 @@ def explore(ctx):
     res = _run(ctx, cases, "load")
     if not all(r.get("distinct_numbers", True) for r in res):
         raise HarnessError("reference: synthetic file content is not distinct in every slot")
+    depth = LOAD_HIST_DEPTH[ctx.tier]
+    seqs = load_histories(depth)
+    lh = [{"kind": "lh", "ops": ops, "id": k} for k, ops in enumerate(seqs)]
+    ctx.run(MOD, "run_case", lh, part="load-history", states=len(lh), transitions=sum(len(c["ops"]) for c in lh))
+    ctx.notes["load_history"] = {"ops": list(LOAD_OPS), "contents": {k: list(v) for k, v in LOAD_CONTENTS.items()},
+                                 "depth": depth, "sequences": len(seqs)}
+    ctx.notes["disp_history"] = {"ops": list(DISP_OPS), "depth": 3, "sequences_per_configuration": 4 + 16 + 64,
+                                 "configurations": len(hist), "presentations": list(DISP_HIST_PRES)}
 
     ctx.notes["alphabets"] = {
         "sort_small_n": list(small_n), "permutations": {n: len(list(itertools.permutations(range(n)))) for n in small_n},
@@ -585,7 +931,8 @@ def explore(ctx):
         "zeroblock_n": [2, 3, 4, 5, 6, 12, 60],
         "mismatch_lattice": "3^5 per (n in 2,3,4,5,12,60) x (identity, crot) x (list, ndarray)",
         "disp_natoms": list(natoms), "masses": list(R.MASS_KINDS), "scalings": list(R.SCALINGS), "norm_modes": list(R.NORM_MODES),
-        "disp_shapes": ["full", "rows1", "subsets"], "mass_containers": ["list", "ndarray", "column"],
+        "disp_shapes": ["full", "rows1", "subsets"], "disp_input_presentations": list(PRESENTATIONS),
+        "disp_integer_presentations": list(INT_PRESENTATIONS), "mass_containers": ["list", "ndarray", "column"],
         "load_nq": [1, 2, 6], "load_np": [3, 6, 60], "load_variants": list(R.LOAD_VARIANTS),
     }
     ctx.notes["margins_5pct"] = {f"{n}:{b}:{p}": [round(x, 4) for x in R.margin(n, b, p)]
@@ -666,6 +1013,26 @@ def selftest():
          "alt: neighbouring rows 1e-9 and 1e3")
     wn = np.linalg.norm(R.displacements(e, R.masses(4, "kg"), R.row_scaling(12, "1"), "raw") * sq(R.masses(4, "kg")), axis=1)
     need(np.all(wn < 1e-12), "raw unit displacements with kg masses have a tiny mass-weighted norm")
+    # histories: validity rules and the presentations really are what they claim
+    for dpt in (1, 2, 3, 4):
+        hs = load_histories(dpt)
+        need(len({tuple(h) for h in hs}) == len(hs) and all(h[-1] in ("Lp", "Lq", "Lr") and len(h) <= dpt for h in hs), "load histories end in a load")
+        need(all(("Lp" not in h) or any(o in ("wXp", "wYp", "wZp") for o in h[:h.index("Lp")]) for h in hs), "Lp only after a write to p")
+    need(["wXp", "Lp", "wYp", "Lp"] in load_histories(4) and ["Lr", "cd2", "Lr"] in load_histories(3), "key histories enumerated")
+    need(_content("X")[1] != _content("Y")[1] and LOAD_CONTENTS["X"][:2] == LOAD_CONTENTS["Y"][:2], "X and Y: same sizes, other numbers")
+    blk = R.displacements(R.basis(6, "crot"), R.masses(2, "elements"), R.row_scaling(6, "1")).astype(complex)
+    a, holder, snap = _present(blk[1:3], "view", (blk, 1, 3))
+    need(a.base is holder and np.array_equal(a, blk[1:3]) and _unchanged(holder, snap), "row view presentation")
+    a[0, 0] += 1
+    need(not _unchanged(holder, snap), "a write through the view is noticed")
+    a, holder, snap = _present(blk, "tview")
+    need(not a.flags["C_CONTIGUOUS"] and np.array_equal(a, blk) and np.shares_memory(a, holder), "transposed view presentation")
+    a, holder, snap = _present(blk, "list")
+    a[0][0] = 5
+    need(not _unchanged(holder, snap), "a write into the nested list is noticed")
+    one = np.ones(6)
+    need(_present(blk * 1e-20, "c64", None, one) is None and _present(blk, "c64", None, one * 1e-20) is None and
+         _present(blk, "c64", None, one)[0].dtype == np.complex64, "complex64 range rule")
     # file layout: reproduce the shipped matdyn files byte for byte; writer/parser round trip
     from mc.explore import repo_root
     for name in ("pwscf.eig", "pwscf.vec"):
